@@ -12,7 +12,7 @@ import ast
 
 from sa.cfg import cfg_of
 from sa.fold import Evaluator, Obj, Raised, Unfoldable, module_consts, single_defs
-from sa.guards import (decide_with, exiting_guards, find_calls, fmt_tests, grid, guard_table,
+from sa.guards import (attr_hook, decide_with, exiting_guards, find_calls, fmt_tests, grid, guard_table, kind_name,
                        names_assigned_from)
 from sa.loader import call_name, calls_in, kwarg, walk_local
 
@@ -67,16 +67,23 @@ def r1(repo, res):
 
     def bind(p):
         env = {n: p["avg"] for n in depth_names}
-        env["sample.coverage.average_coverage()"] = p["avg"]
-        env["profile.min_avg_coverage"] = p["mn"]
-        env["profile.cn_region"] = p["region"]
         env["cn_region"] = p["region"]
-        env["profile.cn_solution"] = p["user_cn"]
         env["cn_solution"] = p["user_cn"]
         return env
 
+    def hook_of(p):
+        base = attr_hook({"min_avg_coverage": p["mn"], "cn_region": p["region"], "cn_solution": p["user_cn"]})
+
+        def hook(node, ev):
+            if isinstance(node, ast.Call) and call_name(node).endswith("average_coverage"):
+                return p["avg"]
+            return base(node, ev)
+
+        return hook
+
+    kn = kind_name(f)
     for kind in ALIGN_KINDS:
-        removed = c.prune(decide_with({"kind": kind}, consts))
+        removed = c.prune(decide_with({kn: kind}, consts))
         for suf, call in stage_calls:
             sink = c.node_of(call)
             if not c.is_reachable(sink, removed):
@@ -84,7 +91,7 @@ def r1(repo, res):
                        f"unreachable for kind={kind!r}", key=f"{suf}|kind={kind}|reach")
                 continue
             gs = exiting_guards(c, sink, removed, kinds=("raise",))
-            tab = guard_table(gs, pts, bind, consts, defs)
+            tab = guard_table(gs, pts, bind, consts, defs, hook_of)
             bad = [p for p, fired in zip(pts, tab) if p["avg"] < p["mn"] and not fired]
             res.ob(
                 "C19.R1", f, call, not bad,
